@@ -1,5 +1,6 @@
 """C12 - concurrent processes initialise jobs and write documents without corruption."""
 import ast
+import re
 
 from ..engine import rule, Ctx
 from ..core import UNKNOWN, dotted, kwarg, body_nodes, inline, stmt_key, canon, walk_no_nested
@@ -232,4 +233,117 @@ def c12_e(ctx: Ctx):
     return out
 
 
-RULES = [c12_a, c12_b, c12_c, c12_d, c12_e]
+EXC_ERRNOS = {"FileExistsError": {"EEXIST"}, "PermissionError": {"EACCES", "EPERM"}, "FileNotFoundError": {"ENOENT"}, "IsADirectoryError": {"EISDIR"},
+              "NotADirectoryError": {"ENOTDIR"}}
+
+
+def _eval_err_test(t, errvar, kind):
+    """Truth value of a handler's test for an abstract error: kind = errno name ('EEXIST', ...) for an OSError, 'OTHER' for an OSError with another errno,
+    'NONOS' for an exception that is not an OSError. -> True / False / None (unknown)"""
+    if isinstance(t, ast.UnaryOp) and isinstance(t.op, ast.Not):
+        v = _eval_err_test(t.operand, errvar, kind)
+        return None if v is None else (not v)
+    if isinstance(t, ast.BoolOp):
+        vals = [_eval_err_test(v, errvar, kind) for v in t.values]
+        if isinstance(t.op, ast.And):
+            if any(v is False for v in vals):
+                return False
+            return True if all(v is True for v in vals) else None
+        if any(v is True for v in vals):
+            return True
+        return False if all(v is False for v in vals) else None
+    if isinstance(t, ast.Call) and isinstance(t.func, ast.Name) and t.func.id == "isinstance" and len(t.args) == 2 and isinstance(t.args[0], ast.Name) and t.args[0].id == errvar:
+        names = [canon(x).split(".")[-1] for x in (t.args[1].elts if isinstance(t.args[1], ast.Tuple) else [t.args[1]])]
+        if kind == "NONOS":
+            return True if any(n in ("Exception", "BaseException") for n in names) else (False if all(n in ("OSError", "IOError", "EnvironmentError") or n in EXC_ERRNOS for n in names) else None)
+        if any(n in ("OSError", "IOError", "EnvironmentError", "Exception", "BaseException") for n in names):
+            return True
+        if all(n in EXC_ERRNOS for n in names):
+            return any(kind in EXC_ERRNOS[n] for n in names)
+        return None
+    if isinstance(t, ast.Compare) and len(t.ops) == 1 and canon(t.left) == f"{errvar}.errno":
+        if kind == "NONOS":
+            return None
+        c = t.comparators[0]
+        names = [canon(x).split(".")[-1] for x in (c.elts if isinstance(c, (ast.Tuple, ast.List, ast.Set)) else [c])]
+        if not all(n.isupper() for n in names):
+            return None
+        op = t.ops[0]
+        hit = kind in names
+        if isinstance(op, (ast.In, ast.Eq)):
+            return hit
+        if isinstance(op, (ast.NotIn, ast.NotEq)):
+            return not hit
+    return None
+
+
+def _reaches(stmts, errvar, kind, is_target):
+    """Can a statement satisfying is_target be executed when the handler body `stmts` runs for the abstract error `kind`?  (ifs on the error are decided,
+    everything else is followed; nested try bodies are entered)  -> (reached, falls_through)"""
+    for s in stmts:
+        if any(is_target(x) for x in ast.walk(s)) and not isinstance(s, (ast.If, ast.Try, ast.With, ast.For, ast.While)):
+            return True, True
+        if isinstance(s, (ast.Return, ast.Raise, ast.Continue, ast.Break)):
+            return False, False
+        if isinstance(s, ast.If):
+            v = _eval_err_test(s.test, errvar, kind)
+            branches = [s.body] if v is True else ([s.orelse] if v is False else [s.body, s.orelse])
+            falls = False
+            for b in branches:
+                r, ft = _reaches(b, errvar, kind, is_target)
+                if r:
+                    return True, True
+                falls = falls or ft
+            if not falls:
+                return False, False
+        elif isinstance(s, ast.Try):
+            for b in [s.body, s.orelse, s.finalbody] + [h.body for h in s.handlers]:
+                r, _ = _reaches(b, errvar, kind, is_target)
+                if r:
+                    return True, True
+        elif isinstance(s, (ast.With, ast.For, ast.While)):
+            r, _ = _reaches(s.body, errvar, kind, is_target)
+            if r:
+                return True, True
+    return False, True
+
+
+@rule("C12-f")
+def c12_f(ctx: Ctx):
+    """The loser of an initialisation race never deletes the winner's state point file: in _StatePointDict.save the clean-up `os.remove(<state point file>)` is
+    not reachable for EEXIST / EACCES (what the final rename or the open report when another process holds or has just created the file)."""
+    R = "C12-f"
+    f = ctx.fn("signac.job:_StatePointDict.save")
+    out = []
+    ex = ExcFacts(ctx)
+    k = f.qual + "|no-delete-on-contention"
+    rems = {id(e.node) for e in ctx.effects.direct(f) if e.kind == "delete"}
+    if not rems:
+        return [ctx.ok(R, f, f.node, "save() never deletes the state point file", construct=k, nontrivial=False)]
+    tries = [t for t in body_nodes(f) if isinstance(t, ast.Try) and any(id(x) in rems for h in t.handlers for st in h.body for x in ast.walk(st))]
+    if not tries:
+        return [ctx.inc(R, f, f.node, "the state point file is deleted outside the handlers of the write", construct=k)]
+    for tr in tries:
+        bad = []
+        for kind in ("EEXIST", "EACCES"):
+            exc = {"EEXIST": "FileExistsError", "EACCES": "PermissionError"}[kind]
+            sel = None
+            for h in tr.handlers:
+                if h.type is None or ex.catches(ex.handler_type_names(f, h), exc):
+                    sel = h
+                    break
+            if sel is None:
+                continue
+            r, _ = _reaches(sel.body, sel.name or "_", kind, lambda x: id(x) in rems)
+            if r:
+                bad.append(kind)
+        if bad:
+            out.append(ctx.viol(R, f, tr, f"the handler of the failed state point write deletes the file also for errno {sorted(bad)}: that is what a process gets whose rename / open "
+                                "collides with another process initialising the same job, so the loser removes the winner's valid state point file and the job directory is left "
+                                "without one (JobsCorruptedError for everybody)", construct=k))
+        else:
+            out.append(ctx.ok(R, f, tr, "the state point file is deleted only for errors other than EEXIST / EACCES (contention with another writer)", construct=k))
+    return out
+
+
+RULES = [c12_a, c12_b, c12_c, c12_d, c12_e, c12_f]
